@@ -5,6 +5,10 @@ Created on Sep 18, 2021
 '''
 
 from vsc.model.bin_expr_type import BinExprType
+from vsc.model.constraint_expr_model import ConstraintExprModel
+from vsc.model.constraint_implies_model import ConstraintImpliesModel
+from vsc.model.expr_unary_model import ExprUnaryModel
+from vsc.model.unary_expr_type import UnaryExprType
 from vsc.model.expr_bin_model import ExprBinModel
 from vsc.model.expr_fieldref_model import ExprFieldRefModel
 from vsc.model.expr_literal_model import ExprLiteralModel
@@ -148,6 +152,16 @@ class SolveGroupSwizzlerPartsel(object):
                     ExprFieldRefModel(f),
                     BinExprType.Eq,
                     ExprLiteralModel(int(val), f.is_signed, f.width))]
+            guard = getattr(dist_scope_c, "guard", None)
+            if guard is not None:
+                # The dist only applies when its enclosing conditions hold: 
+                # target the dist value in that case, and a value from the 
+                # field's domain otherwise
+                ret = [ConstraintImpliesModel(guard, [ConstraintExprModel(e)]) for e in ret]
+                if f in bound_m.keys() and not bound_m[f].isEmpty():
+                    not_guard = ExprUnaryModel(UnaryExprType.Not, guard)
+                    for e in self.create_rand_domain_constraint(f, bound_m[f]):
+                        ret.append(ConstraintImpliesModel(not_guard, [ConstraintExprModel(e)]))
         else:
             if f in bound_m.keys():
                 f_bound = bound_m[f]
